@@ -98,7 +98,7 @@ func checkMain(args []string) {
 	fs := flag.NewFlagSet("check", flag.ExitOnError)
 	tier := fs.String("tier", "quick", "quick|thorough")
 	workers := fs.Int("j", 16, "workers")
-	solver := fs.String("solver", "z3", "primary solver")
+	solver := fs.String("solver", defaultSolver(), "primary solver (z3-new = z3 5.1.0 when installed, else z3)")
 	timeout := fs.Int("solver-timeout", 30000, "per-query timeout ms")
 	replayDir := fs.String("replay", "", "re-run a recorded counterexample directory")
 	only := fs.String("only", "", "run only this harness")
@@ -271,7 +271,7 @@ func checkMain(args []string) {
 			}
 		}
 		// translator validation: replay cover models natively
-		if !*noValidate && len(st.CoverModels) > 0 && len(st.Violations) == 0 && !h.Opts.Schedule {
+		if !*noValidate && len(st.CoverModels) > 0 && len(st.Violations) == 0 && !h.Opts.Schedule && !h.NoNative {
 			okN, fails := validateCovers(prop, h, st.CoverModels, overlayFiles, pkg)
 			r.Validated = okN
 			r.ValidateFail = fails
@@ -449,6 +449,7 @@ type replayVector struct {
 	Decisions []int             `json:"decisions"`
 	Stack     []string          `json:"stack"`
 	Opts      ExecOpts          `json:"opts"`
+	NoNative  bool              `json:"no_native"`
 }
 
 func harnessFuncs(pkg *ssa.Package) []string {
@@ -544,7 +545,7 @@ func recordReplay(prop string, h HarnessSpec, v *Violation, overlayFiles map[str
 		os.RemoveAll(dir)
 	}
 	writeReplayFiles(dir, pkg, h.Pkg, overlayFiles)
-	vec := replayVector{Property: prop, Pkg: h.Pkg, Harness: h.Func, Kind: v.Kind, Label: v.Label, Msg: v.Msg, Model: v.Model, Decisions: v.Prefix, Stack: v.Stack, Opts: h.Opts}
+	vec := replayVector{Property: prop, Pkg: h.Pkg, Harness: h.Func, Kind: v.Kind, Label: v.Label, Msg: v.Msg, Model: v.Model, Decisions: v.Prefix, Stack: v.Stack, Opts: h.Opts, NoNative: h.NoNative}
 	b, _ := json.MarshalIndent(vec, "", " ")
 	os.WriteFile(filepath.Join(dir, "vector.json"), b, 0o644)
 	script := fmt.Sprintf("#!/bin/sh\n# native replay of the counterexample against the real code\ncd /repo && VND_HARNESS=%s VND_REPLAY=%s/vector.json GOFLAGS=-mod=mod GOPROXY=off GOSUMDB=off GOTOOLCHAIN=local timeout 300 go test -tags verif -vet=off -count=1 -overlay %s/overlay.json -run 'TestVerifReplay$' -v ./%s\n", h.Func, dir, dir, h.Pkg)
@@ -563,11 +564,11 @@ func runNative(dir, pkgRel string, env []string) (string, error) {
 
 // confirmReplay runs the counterexample against the natively compiled code.
 func confirmReplay(dir string, h HarnessSpec, v *Violation) (string, string) {
-	if v.Kind == "deadlock" || v.Kind == "race" || h.Opts.Schedule {
+	if v.Kind == "deadlock" || v.Kind == "race" || h.Opts.Schedule || h.NoNative {
 		// schedule-dependent: the Go runtime cannot be forced onto the recorded
 		// interleaving; the replay is the deterministic re-execution of the
 		// recorded decision sequence by the engine (vcheck <prop> --replay <dir>).
-		return "confirmed", "schedule counterexample: deterministic engine replay of the recorded decisions (" + fmt.Sprint(len(v.Prefix)) + " decisions)"
+		return "confirmed", "schedule / virtual-time counterexample: deterministic engine replay of the recorded decisions (" + fmt.Sprint(len(v.Prefix)) + " decisions)"
 	}
 	out, _ := runNative(dir, h.Pkg, []string{"VND_HARNESS=" + h.Func, "VND_REPLAY=" + filepath.Join(dir, "vector.json")})
 	os.WriteFile(filepath.Join(dir, "native_output.txt"), []byte(out), 0o644)
@@ -691,7 +692,7 @@ func replayRecorded(dir string) int {
 	}
 	pkg := P.pkgs[P.modPath+"/"+vec.Pkg]
 	ctx := NewCtx()
-	s, err := NewSolver(ctx, "z3", 30000)
+	s, err := NewSolver(ctx, defaultSolver(), 30000)
 	if err != nil {
 		fmt.Println(err)
 		return 2
@@ -707,7 +708,7 @@ func replayRecorded(dir string) int {
 			fmt.Println("    at", l)
 		}
 	}
-	if !(vec.Kind == "deadlock" || vec.Kind == "race" || vec.Opts.Schedule) {
+	if !(vec.Kind == "deadlock" || vec.Kind == "race" || vec.Opts.Schedule || vec.NoNative) {
 		out, _ := runNative(dir, vec.Pkg, []string{"VND_HARNESS=" + vec.Harness, "VND_REPLAY=" + filepath.Join(dir, "vector.json")})
 		fmt.Println("native replay output (tail):")
 		fmt.Println(lastLines(out, 15))
@@ -717,4 +718,14 @@ func replayRecorded(dir string) int {
 		return 1
 	}
 	return 0
+}
+
+func defaultSolver() string {
+	if s := os.Getenv("GOSYM_SOLVER"); s != "" {
+		return s
+	}
+	if _, err := exec.LookPath("z3-new"); err == nil {
+		return "z3-new"
+	}
+	return "z3"
 }
